@@ -75,6 +75,16 @@ def gen_case(rng):
             ops.append("pc fire %d" % i)
         elif r < 0.86 and not c["cancelled"]:
             ops.append("pc cancel %d" % i); c["cancelled"] = True
+        elif r < 0.905 and not c["cancelled"] and not closed:
+            # the wait is issued from inside a filter, while a dispatch is under way: the queue is drained first, then the peer writes a
+            # stray message (the one the filter will be handed: replies that answer a registered call never reach the filters) and,
+            # behind it, the reply the filter is going to wait for
+            ops += ["pc pump"] + ["pc dispatch"] * (2 * n + 6)
+            ops.append("pc peer-stray %d %d" % (rng.choice([99, 1000, 0x7ffffff0]), newtag(False)))
+            ops.append("pc peer %d %d" % (i, newtag(rng.random() < 0.3))); c["sent"] += 1
+            if rng.random() < 0.5:
+                ops.append("pc pump")
+            ops.append("pc dispatch-block %d" % i)
         elif r < 0.93 and not c["cancelled"] and (c["sent"] > 0 or closed):
             ops.append("pc block %d" % i)
         elif r < 0.97 and not closed:
